@@ -18,7 +18,7 @@ build_pkg() {
 : > /tmp/mut/confirm.log
 build_pkg || { echo "extension build failed (clean)"; exit 2; }
 (cd "$OUT" && PYTHONPATH=/tmp/mut/confirm-pypkg:$stubs python3-vt "$demo" >>/tmp/mut/confirm.log 2>&1); r_clean=$?
-git apply "$OUT/patch.diff" 2>/dev/null || git apply --3way "$OUT/patch.diff" >/dev/null 2>&1 || { echo "patch does not apply"; exit 2; }
+git apply "$OUT/patch.diff" 2>/dev/null || { git apply --3way "$OUT/patch.diff" >/dev/null 2>&1 && [ -z "$(git diff --name-only --diff-filter=U)" ]; } || { git reset -q --hard HEAD; echo "patch does not apply"; exit 2; }
 git reset -q 2>/dev/null
 build_pkg || { echo "extension build failed (mutant)"; exit 2; }
 (cd "$OUT" && PYTHONPATH=/tmp/mut/confirm-pypkg:$stubs python3-vt "$demo" >>/tmp/mut/confirm.log 2>&1); r_mut=$?
